@@ -13,8 +13,7 @@ pub static DEF: PropDef = PropDef {
     title: "Encoding only appends",
     rule: "Sequences of 1..6 values (G-val control messages, G-data messages, single AVPs incl. hidden ones) encoded one after the other into a writer that already holds a prefix of 0..300 octets, or (1 case in 8) about 2^16 octets and beyond, where writer positions no longer fit 16 bits. \
 Oracle: (1) VecWriter{data: p} after the writes = p ++ encode_into_empty(v1) ++ .. ++ encode_into_empty(vk), checked after every value; (2) the same through MonWriter, a harness Writer that \
-records every write_bytes_at(offset, len) with the writer length at that moment: each overwrite must start at or after the first octet of the value being encoded, end within the octets written so far, \
-and an overwrite issued while an AVP is being encoded must lie inside that AVP; no overwrite may be out of range; MonWriter and VecWriter must end with identical octets; in 3 cases of 10 MonWriter additionally reports positions offset by a virtual base of 2^16 .. 2^62 (around 2^32 most often), and no overwrite may land in those implicit octets; in 1 case of 10 a refused encode precedes one of the values. \
+records every write_bytes_at(offset, len) with the writer length at that moment: each overwrite must start at or after the first octet of the value being encoded and end within the octets written so far; no overwrite may be out of range; MonWriter and VecWriter must end with identical octets; in 3 cases of 10 MonWriter additionally reports positions offset by a virtual base of 2^16 .. 2^62 (around 2^32 most often), and no overwrite may land in those implicit octets; in 1 case of 10 a refused encode precedes one of the values. \
 Non-trivial = non-empty prefix or k >= 2; distinct by hash of (prefix, encodings).",
     assumptions: &[],
     parts,
@@ -203,12 +202,13 @@ fn check(t: &mut Tape, cx: &mut Cx) -> Res {
             if o.offset + o.len > o.writer_len || o.writer_len > end {
                 return fail(format!("positional overwrite [{}, {}) beyond the {} octets written", o.offset, o.offset + o.len, o.writer_len), render(i));
             }
-            // an overwrite issued when the writer ends exactly at an AVP's end (and not at the message's end) belongs to that AVP
-            if o.writer_len != end || matches!(v, Val::Avp(_)) {
-                if let Some((s, e)) = avp_ext.iter().find(|(_, e)| *e == o.writer_len) {
-                    if o.offset < *s || o.offset + o.len > *e {
-                        return fail(format!("overwrite [{}, {}) issued while encoding the AVP at [{}, {}) lies outside that AVP", o.offset, o.offset + o.len, s, e), render(i));
-                    }
+            // (which AVP of a message is "being encoded" when an overwrite is issued cannot be observed from outside - an
+            // encoder may legitimately refresh the message's Length field after every AVP - so inside a message only the
+            // message's own extent is required; for a top-level AVP the extent is the AVP's)
+            if let Val::Avp(_) = v {
+                let (s, e) = avp_ext[0];
+                if o.offset < s || o.offset + o.len > e {
+                    return fail(format!("overwrite [{}, {}) issued while encoding the AVP at [{}, {}) lies outside that AVP", o.offset, o.offset + o.len, s, e), render(i));
                 }
             }
         }
